@@ -79,6 +79,23 @@ func ValueDomain(n *Node) []string {
 		scalars = []string{"-5", "0", "9"}
 	case "boolean":
 		scalars = []string{"true", "false", "true"}
+	case "decimal64":
+		scalars = []string{"1.5", "-0.05", "100"}
+	case "enumeration":
+		scalars = []string{"one", "two", "three-3"}
+		if len(n.Enums) > 0 {
+			scalars = n.Enums
+		}
+	case "identityref":
+		scalars = []string{"red", "green", "blue"}
+	case "binary":
+		scalars = []string{"AA==", "3q2+7w==", "AAEC"}
+	case "bits":
+		scalars = []string{"b0", "b0 b2", "b1"}
+	case "union":
+		scalars = []string{"5", "auto", "hello"}
+	case "empty":
+		scalars = []string{""}
 	default:
 		scalars = []string{"v1", "v2", "v3"}
 	}
